@@ -141,12 +141,15 @@ CLAIMED = {
              'C10_consistent '
              '(an accepted file has a consistent table), C10_torn (every strict prefix of every writer-produced file is '
              'rejected or loads the same Reader state), on the model of Reader.__init__; campaign over every prefix, every '
-             'single-field corruption, payload damage and random strings, through Reader and fjm_run.run.',
+             'single-field corruption, payload damage and random strings, through Reader and fjm_run.run. Source tie '
+             '(Properties/C10_source.v): Reader._validate_segments and Reader._init_memory are re-translated from the current '
+             'Python source on every run (gen_facts_loader.py, IR of Model/PyIR.v) and proved equal to the model\'s '
+             'validate_segments / init_memory (memory map, segments, zero ranges, error classes), so read_src = read.',
         design_ref='DESIGN.md section 4, C10',
         note='Premise of C10_torn: a strict prefix of a raw LZMA2 stream does not decode (checked on every v3 prefix each run). '
              'The allocation bound is a product (v0/v1 segments may share data ranges) and excludes v3 decompression bombs '
              '(the pool is the decompressed size). fjm_run.run classification and hang-freedom are campaign-only. F6, F19 fixed.',
-        technique='Coq totality / torn-prefix / consistency theorems on the reader model + corruption campaign evaluated in Coq'),
+        technique='Coq totality / torn-prefix / consistency theorems on the reader model + Python-source translator with kernel-checked equality to the model + corruption campaign evaluated in Coq'),
     'C12': dict(
         category='proof',
         text='Coq theorems: every operator of the table equals Z arithmetic (floor div, divisor-sign mod, arithmetic shifts, '
@@ -250,12 +253,14 @@ CLAIMED = {
              'read_bit/write_bit/get_output exactly as Spec/IOSpec.v requires: lsb-first packing, IncompleteOutput iff '
              '|bits| mod 8 <> 0, EOF exactly at read 8*|input|+1, pack o unpack = id, the keyboard status-nibble/keycode '
              'protocol in (tic, script order) with no early delivery and no EOF; the FixedIO output equals MachineSpec.out_bytes '
-             '(link to C01).',
+             '(link to C01). Source tie (Properties/C17_source.v): every method of FixedIO and StandardIO is re-translated from '
+             'the current Python source on every run (gen_facts_devices.py, IR of Model/PyIR.v) and proved to answer and update '
+             'the object exactly as Model/Devices.v; whole-device traces equal device_trace.',
         design_ref='DESIGN.md section 4, C17',
         note='The theorems are about the model; CPython is tied to it on every run by an exhaustive (<= 16 bits) plus randomised '
              'correspondence campaign evaluated inside Coq. Not covered: sys.stdin/stdout plumbing, stdin characters >= 256, '
              'non-ASCII script text or text over 4000 characters, the pygame live key source.',
-        technique='Coq list-induction theorems on the device models + exhaustive/random correspondence evaluated in Coq'),
+        technique='Coq list-induction theorems on the device models + Python-source translator with kernel-checked equality to the model + exhaustive/random correspondence evaluated in Coq'),
     'C18': dict(
         category='proof',
         text='The exception paths of all three engines are transcribed (EngPyFaults.v: _run_featured/_run_fast with the finally '
@@ -281,7 +286,9 @@ CLAIMED = {
              'explicit exit): C19_view_consistent (in-segment device writes are what later device reads and program accesses '
              'return, nothing else changes), C19_data_byte (packed byte = bits #w..#w+7 of the jump word, w >= 16), '
              'C19_no_device_no_change, C19_engine_independent (Reader and native adapters give identical runs for in-segment '
-             'scripts), C19_screen_total, C19_screen_layout, C19_palette_layout, C19_rectangle_only_box. Every campaign case (5 '
+             'scripts), C19_screen_total, C19_screen_layout (incl. the RGB frame = the indices expanded by the current palette), '
+             'C19_palette_layout, C19_rectangle_only_box. Indices, palette, last_frame_rgb and the decoded PNG are compared '
+             'after every present, with palette-cycling streams. Every campaign case (5 '
              'engine/storage configurations x device scripts; real InMemoryScreen on random valid/malformed streams and on '
              'programs emitting them) is evaluated in Coq and cross-compared between engines.',
         design_ref='DESIGN.md section 4, C19',
